@@ -67,6 +67,20 @@ TEXT = {
         "design_ref": "DESIGN.md §5 C01, §4.1", "note": RX_NOTE,
         "technique": "Lean 4 proof (invariant + induction over events) on a hand-written model; model-vs-implementation correspondence run",
     },
+    "C04": {
+        "level": "Machine-checked theorems over every parameter shape, every set of error variants and every reply object (member order, duplicates, unknown members): a reply with an `error` member is never classified as success; "
+                 "success / service-error / method-error are characterised exactly (iff) by the three decoders in declaration order; a reported error is always the variant the `error` member names; a frame without `error` member is never an error. "
+                 "The serde semantics the model assumes are validated on 21k (quick) / 240k (thorough) type-directed reply objects across 30 compiled receivers with an independent Lean oracle on the implementation's verdicts.",
+        "design_ref": "DESIGN.md §5 C04, §4.5", "note": "Trusted: Lean kernel; serde/serde_derive/serde_json semantics modelled (not verified) for the shape family; the harness's type corpus and JSON generator; extractor for the standard error list of varlink_service/api.rs.",
+        "technique": "Lean 4 proof (case analysis over the decoding model) + model-vs-implementation correspondence over a compiled type corpus with a Lean oracle",
+    },
+    "C05": {
+        "level": "Machine-checked theorems: encode/decode round trip of calls for every variant with distinct field names, every well-typed argument list and all 8 flag combinations; flags appear only when set; the member list handed to the method type is exactly the non-flag members; "
+                 "error encoding shape and round trip (derived and standard errors); tag/content order independence; reply members only when present; absent/null/{} parameters for field-less variants. "
+                 "Exhaustive permutation sweep of call members (all orders of <= 5 members x 8 flag sets x 4 method types) and byte-for-byte encoder comparison against the real code.",
+        "design_ref": "DESIGN.md §5 C05, §4.5", "note": "Trusted: as C04, plus the extractor for the flag names of call/ser.rs and call/de.rs. Known finding: `{}` parameters for a unit-output reply (receive_reply::<(), E>) are refused.",
+        "technique": "Lean 4 proof (round-trip lemmas by induction on field lists, case analysis on flags) + exhaustive permutation correspondence run",
+    },
     "C06": {
         "level": "Machine-checked theorems: for every owed-reply count, every conforming script, every list of trailing frames, every read-size schedule and every interleaving of arrivals with stream polls, the "
                  "reply-stream model yields exactly the owed frames in order, is pending only while something is owed, then ends, and the receive state has consumed a prefix of the script only (never a trailing frame); "
